@@ -58,15 +58,10 @@ def r14a(R):
     A = R.A
     cf = A.func(UNITS, 'convert_fn')
     table = None
-    for n in walk_own(cf.node):
-        if isinstance(n, ast.Dict):
-            try:
-                t = A.fold(n, cf)
-            except Unfoldable:
-                continue
-            if t and all(isinstance(k, EnumVal) and isinstance(v, dict)
-                         for k, v in t.items()):
-                table = t
+    for t, _n in A.tables_in(cf):
+        if all(isinstance(k, EnumVal) and isinstance(v, dict)
+               for k, v in t.items()):
+            table = t
     if table is None:
         raise AnalysisError('units.convert_fn: nested table not found')
     for a in MODES:
@@ -327,9 +322,13 @@ def r15a(R):
         R.check(m, '%s: %s after _normalize_rect' % (name, ', '.join(got)), ok,
                 'the rectangle\'s bottom/right are inclusive: the loops must '
                 'run to bound + 1, after the defaults were filled in')
+        lv = {}
+        for l in loops:
+            lv['row' if 'top' in norm(l.ast.iter) else 'column'] = norm(l.ast.target)
         body = [n for n in mcfg.nodes if n.kind == 'stmt'
                 and isinstance(n.ast, ast.Assign)
-                and norm(n.ast.targets[0]) == 'self._mat[row][column]']
+                and norm(n.ast.targets[0]) == 'self._mat[%s][%s]' % (
+                    lv.get('row'), lv.get('column'))]
         R.check(m, 'writes self._mat[row][column]', len(body) == 1,
                 'the overlay does not write the addressed cell')
 
@@ -375,12 +374,22 @@ def r15b(R):
             'overlay the staged colour)')
     # the dispatch table routes MATRIX -> _color_matrix, MATRIX_LIGHT -> ..light
     col = machine.methods['_color']
-    txt = norm(col.node)
-    R.check(col, 'Operand.MATRIX -> _color_matrix; MATRIX_LIGHT -> '
-            '_color_matrix_light',
-            '(Operand.MATRIX, self._color_matrix)' in txt and
-            '(Operand.MATRIX_LIGHT, self._color_matrix_light)' in txt,
-            'the colour dispatch table routes the matrix operands wrongly')
+    routing = {}
+    for n in walk_own(col.node):
+        pairs = []
+        if isinstance(n, ast.Dict):
+            pairs = list(zip(n.keys, n.values))
+        elif isinstance(n, ast.Tuple) and len(n.elts) == 2:
+            pairs = [(n.elts[0], n.elts[1])]
+        for k, v in pairs:
+            kv = A.try_fold(k, col) if k is not None else None
+            if isinstance(kv, EnumVal) and kv.enum == 'Operand' and self_attr(v):
+                routing[kv.member] = v.attr
+    R.check(col, 'Operand.MATRIX -> %s; MATRIX_LIGHT -> %s' % (
+        routing.get('MATRIX'), routing.get('MATRIX_LIGHT')),
+        routing.get('MATRIX') == '_color_matrix' and
+        routing.get('MATRIX_LIGHT') == '_color_matrix_light',
+        'the colour dispatch table routes the matrix operands wrongly')
 
 
 @rule('R15.c', ('C15',), 'matrix: convert, then fill the default, then send; '
@@ -432,27 +441,52 @@ def r15c(R):
 def r15d(R):
     A = R.A
     io = A.func(MPARSE, 'MatrixParser._inline_operand')
-    cfg = A.cfg(io)
-    for flag, regs in (('has_rows', ('FIRST_ROW', 'LAST_ROW')),
-                       ('has_columns', ('FIRST_COLUMN', 'LAST_COLUMN'))):
-        t = [n for n in cfg.nodes if n.kind == 'cond' and norm(n.ast) == flag]
-        ok = False
-        if t:
-            br = [m for m, lab in t[-1].succs if lab is False]
-            emitted = []
-            for n in br:
-                for call, ops in A.emission_sites(io):
-                    if call in n.calls():
-                        for op, args in ops:
-                            if op == 'MOVEQ' and len(args) == 2 and \
-                                    A.try_fold(args[0], io, 'x') is None:
-                                v = A.try_fold(args[1], io)
-                                if isinstance(v, EnumVal):
-                                    emitted.append(v.member)
-            ok = sorted(emitted) == sorted(regs)
-        R.check(io, 'no %s clause: MOVEQ None -> %s, %s' % (
-            flag[4:], regs[0], regs[1]), ok,
-            'an omitted %s clause must clear both bounds (full extent)' % flag[4:])
+    mp = io.cls
+    # where an axis is reset to "full extent", both of its bounds are reset
+    # together (same statement, or the statements of one straight-line block)
+    resets = {}         # (function, cfg node id) -> set of register members
+    for m in mp.methods.values():
+        mcfg = A.cfg(m)
+        for call, ops in A.emission_sites(m):
+            for op, args in ops:
+                if op == 'MOVEQ' and len(args) == 2 and \
+                        A.try_fold(args[0], m, 'x') is None:
+                    v = A.try_fold(args[1], m)
+                    if isinstance(v, EnumVal) and v.enum == 'Register':
+                        for n in A.node_of_call(m, call):
+                            resets.setdefault((m, n.id), set()).add(v.member)
+    for lo, hi, axis in (('FIRST_ROW', 'LAST_ROW', 'row'),
+                         ('FIRST_COLUMN', 'LAST_COLUMN', 'column')):
+        sites = [(k, regs) for k, regs in resets.items()
+                 if (lo in regs or hi in regs)
+                 and k[0].name not in ('get_all', '_range')]
+        ok = bool(sites)
+        for (m, nid), regs in sites:
+            if lo in regs and hi in regs:
+                continue
+            # the other bound must be reset by the neighbouring statement
+            mcfg = A.cfg(m)
+            node = mcfg.nodes[nid]
+            near = set(regs)
+            for nb, _l in list(node.succs) + list(node.preds):
+                near |= resets.get((m, nb.id), set())
+            if not (lo in near and hi in near):
+                ok = False
+        R.check(io, 'no %s clause: MOVEQ None -> %s and %s together' % (axis, lo, hi),
+                ok, 'an omitted %s clause must clear both bounds (full extent); '
+                'here only one of them is reset, so the stage inherits the '
+                'other from an earlier stage' % axis)
+    # and the reset is reachable exactly when the clause is absent: the
+    # inline operand parser (with its helpers) can emit it
+    reach = [g for g in A.rs.reachable([io]) if g.cls is mp]
+    have = set()
+    for (m, _nid), regs in resets.items():
+        if m in reach and m.name not in ('get_all', '_range'):
+            have |= regs
+    R.check(io, 'inline operand resets absent clauses (%s)' % sorted(have),
+            {'FIRST_ROW', 'LAST_ROW', 'FIRST_COLUMN', 'LAST_COLUMN'} <= have,
+            'the inline operand parser no longer resets the bounds of an '
+            'absent row / column clause')
     for modname, fname in ((MPARSE, 'MatrixParser._range'), (PARSE, 'Parser._range')):
         f = A.func(modname, fname)
         fcfg = A.cfg(f)
